@@ -152,7 +152,7 @@ Local Notation mk_node_ch := (mk_node_ch simple_fold cat_in).
 Local Notation mk_node_set := (mk_node_set simple_fold cat_in).
 
 (* ---------------------------------------------------------------- node constructors *)
-Lemma case_close_safe c : psafe (case_close c).
+Lemma case_close_safe c : match case_close c with POk _ | PO => True | _ => False end.
 Proof.
   unfold Parser.case_close. destruct (pp_ci_span_limit <? cls_span c); [exact I|].
   pose proof (add_case_equivalences_rnc cat_in simple_fold pp_orbit_fuel c) as H.
@@ -170,7 +170,7 @@ Proof.
 Qed.
 
 Lemma case_conv_ok x : leaf_like x ->
-  match case_conv x with POk y => leaf_like y | PE _ _ | PO => True | PC _ | PF => False end.
+  match case_conv x with POk y => leaf_like y | PO => True | PE _ _ | PC _ | PF => False end.
 Proof.
   destruct x as [t o ch m n str st kids]. intros [H1 [H2 [H3 H4]]]. cbn in H1, H2, H3, H4. subst kids.
   unfold Parser.case_conv.
@@ -191,24 +191,23 @@ Proof.
 Qed.
 
 Lemma mk_node_ch_ok t o ch : unary_t t = false -> t <> T_Multi -> is_set_family t = false ->
-  match mk_node_ch t o ch with POk y => good y | PE _ _ | PO => True | PC _ | PF => False end.
+  match mk_node_ch t o ch with POk y => good y | PO => True | PE _ _ | PC _ | PF => False end.
 Proof.
   intros H1 H2 H3. unfold Parser.mk_node_ch.
-  pose proof (case_conv_ok (RN t o ch 0 0 [] None [])) as C.
+  assert (L : leaf_like (RN t o ch 0 0 [] None [])) by (repeat split; cbn; auto; congruence).
+  pose proof (case_conv_ok (RN t o ch 0 0 [] None []) L) as C.
   destruct (case_conv (RN t o ch 0 0 [] None [])); auto.
-  - apply leaf_like_good. apply C. repeat split; cbn; auto. congruence.
-  - apply C. repeat split; cbn; auto. congruence.
-  - apply C. repeat split; cbn; auto. congruence.
+  apply leaf_like_good. exact C.
 Qed.
 
 Lemma mk_node_set_ok o s :
-  match mk_node_set T_Set o s with POk y => good y | PE _ _ | PO => True | PC _ | PF => False end.
+  match mk_node_set T_Set o s with POk y => good y | PO => True | PE _ _ | PC _ | PF => False end.
 Proof.
   unfold Parser.mk_node_set.
-  pose proof (case_conv_ok (RN T_Set o 0 0 0 [] (Some s) [])) as C.
   assert (L : leaf_like (RN T_Set o 0 0 0 [] (Some s) [])) by (repeat split; cbn; auto; discriminate).
+  pose proof (case_conv_ok (RN T_Set o 0 0 0 [] (Some s) []) L) as C.
   destruct (case_conv (RN T_Set o 0 0 0 [] (Some s) [])); auto.
-  apply leaf_like_good. apply C. exact L.
+  apply leaf_like_good. exact C.
 Qed.
 
 (* ---------------------------------------------------------------- single reducers *)
